@@ -53,7 +53,18 @@ def c05(sc, tier, seed):
                             'TLC enumerates every state of MC_sets (3 keys; each missing, one of the 3 non-empty sets over {x,y}, a string or a list) x every set command instance (all operand tuples up to length 3 incl. repeated/missing/wrong-typed operands and destination among the operands, SRANDMEMBER counts -3..3, SINTERCARD numkeys/LIMIT variants, bad arity); one replay case per transition with full-state comparison. Non-trivial = state changed or command failed; distinct = distinct (pre-state, command).')
 
 
-CHECKS = {'C03': c03, 'C05': c05}
+def c04(sc, tier, seed):
+    return transition_check(sc, tier, seed, 'C04', ['MC_hashes'], 15000,
+                            'TLC enumerates every state of MC_hashes (2 keys; hashes over fields {f,g} with values {x,7}, boundary integers +-2^63, mixed signs, dyadic floats, empty value; wrong-typed keys) x every hash command instance (HSET/HMSET/HSETNX incl. repeated fields and odd arity, HINCRBY over a sign/overflow table, HINCRBYFLOAT on dyadic values, HRANDFIELD counts -3..3 with/without WITHVALUES, bad arity); one replay case per transition with full-state comparison.')
+
+
+def c02(sc, tier, seed):
+    return transition_check(sc, tier, seed, 'C02', ['MC_strings'], 15000,
+                            'TLC enumerates every state of MC_strings (2 keys; strings incl. empty, numeric, +-2^63, dyadic float, with and without TTL; wrong-typed keys) x every string command instance (SET with 29 option vectors incl. orders, keyword case and invalid combinations; SETNX/MSETNX in three spellings; GETRANGE over a 10x10 offset table; SETRANGE offsets -1..5; counters over a boundary table; LCS); one replay case per transition with full-state (value + deadline) comparison.',
+                            assumptions=['INCRBYFLOAT/HINCRBYFLOAT only on multiples of 0.25 (exact in every float format); decimal rounding of non-dyadic values is out of scope'])
+
+
+CHECKS = {'C02': c02, 'C03': c03, 'C04': c04, 'C05': c05}
 
 
 def replay_path(path):
